@@ -277,6 +277,21 @@ static void run() {
         for (int api = 0; api < 2; api++) for (int chunk = 0; chunk < 2; chunk++) for (size_t N : {(size_t)0, (size_t)SSIZE_MAX + 1, (size_t)-1}) {
             run_case({api, (bool)chunk, (bool)chunk, N, 0, {}, {}, 0, 0, 0}); vp::cls("invalid-n");
         }
+    // long runs of one transient behaviour (a retry loop that gives up, or counts, after k repetitions shows here): k zero-length returns /
+    // EINTR / EAGAIN / one-octet transfers in a row, at the start and behind a partial transfer, chunk-style drivers, exact-N calls and the aux plumbing
+    for (int b : {0, -EINTR, -EAGAIN, 1}) for (size_t L : {8u, 15u, 16u, 17u, 31u, 32u, 33u, 63u, 64u, 65u, 100u, 127u, 128u, 129u, 255u, 256u, 257u, 1000u}) for (int shape = 0; shape < 3; shape++) {
+        if (idx++ % a.nshards != a.shard) continue;
+        std::vector<int> sc;
+        if (shape == 1) sc.push_back(1);
+        sc.insert(sc.end(), L, b);
+        if (shape == 2) { sc.push_back(1); sc.insert(sc.end(), L, b); }
+        size_t N = b == 1 ? 2 * L + 5 : 6;
+        for (int api = 0; api < 2; api++) { Case c{api, true, true, N, 0, sc, sc, 0, 0, 0}; run_case(c); vp::nontrivial(vp::fnv(ser(c))); }
+        if (b == 1) { Case c{17, true, true, N, N + 3, sc, {}, 4, 0, 4}; run_case(c); }   // source side: partial transfers only (an interruption of the plumbing's single at-most read is reported as the error it is; retrying is the exact-N calls' business)
+        { Case c{17, true, true, N, N + 3, {}, sc, 4, 0, 4}; run_case(c); }
+        { Case c{18, true, true, 0, N, {}, sc, 3, 0, 3}; run_case(c); }
+        vp::cls("long-run-of-one-transient-behaviour", 5);
+    }
     // plumbing: structured grid
     static const std::vector<std::vector<int>> PS = {{}, {1}, {1, 1, 2}, {2, 1, 3}, {3, 3}, {1, ep::ALL, 1}, {HARD}, {ep::ALL, HARD}, {1, 2, HARD}, {2, 2, 2, 2, HARD}};
     for (int api = 10; api <= 18; api++)
